@@ -24,6 +24,8 @@ EXPLANATION_ADDED = (' (R2 is decided as a truth table over the comparison atoms
 EXPLANATION += EXPLANATION_ADDED
 EXPLANATION_ADDED3 = (' (R5 also) copy.copy(Regions) — the `__copy__` the class defines or inherits — binds a new list, so appending to the copy does not change the original.')
 EXPLANATION += EXPLANATION_ADDED3
+EXPLANATION_ADDED2 = (' (R7) regions that come out of one parse are values of their own (C13.R7 on the DS9 reader).')
+EXPLANATION += EXPLANATION_ADDED2
 TRUSTED = ['copy.deepcopy yields an equal object sharing no mutable state', 'list slicing / list.copy() build a new list']
 ASSUMPTIONS = ['descriptor __set__ stores the value it validated (C17.R2)']
 
@@ -440,6 +442,13 @@ def r6(ctx):
             ctx.ok(construct, f'marker {gname}: ' + '; '.join(sorted({_copy_stable(m, core, d)[1] for d in defs})))
 
 
+def r7(ctx):
+    """regions that come out of one parse are values of their own: changing the metadata of one never shows in another
+    (C13.R7: the DS9 reader deep-copies the metadata that several regions inherit)."""
+    from .c13 import r7 as c13r7
+    c13r7(ctx)
+
+
 RULES = [
     RuleDef('R1', 'Region.copy: deep, complete, class-preserving (23 classes x 2)', r1, 41),
     RuleDef('R2', 'Region.__eq__ compares class and every field, never raises; __ne__ negates', r2, 25),
@@ -447,4 +456,5 @@ RULES = [
     RuleDef('R4', 'PixCoord.copy / Meta.copy deep; PixCoord.__eq__', r4, 3),
     RuleDef('R5', 'Regions slicing/copy bind a new list', r5, 2),
     RuleDef('R6', 'values the DS9 reader stores in visual are copy-stable (point symbol markers)', r6, 5),
+    RuleDef('R7', 'regions read from one text share no mutable metadata object (C13.R7)', r7, 2),
 ]
